@@ -15,7 +15,9 @@ PSchema ==
   << DInt("i", "7"), DStr("s", "d"), DIntList("l", <<"1","2">>), DStrList("sl", <<>>),
      WithFlags(DInt("nd", "0"), {"NODEFAULT"}), DFloat("f", "1.5"), DBool("b", "false"),
      DSec("sec", {}, << DInt("x", "5"), DStr("s", Null),
-                        DSec("sub", {}, << DInt("y", "1"), DInt("x", "3") >>),
+                        DSec("sub", {}, << DInt("y", "1"), DInt("x", "3"),
+                                           (* values in the caller's variables: set / a NULL string *)
+                                           DSimple("sv", "int", "0"), DSimple("sw", "str", Null) >>),
                         DFunc("g", "user") >>),
      DSec("t", {"MULTI","TITLE"}, << DInt("x", "5"), DIntList("l", <<>>) >>),
      DFunc("fn", "user") >>
